@@ -96,7 +96,13 @@ func (a *Act) intrinsic(name string, fv FuncV, args []Value) (Value, bool) {
 	case "log.Printf", "log.Println", "log.Fatalf":
 		return nil, true
 	case "google.golang.org/protobuf/proto.Clone":
-		return args[0], true
+		// structural deep copy of the message object graph (DESIGN.md section 4.2)
+		iv := args[0].(IfaceV)
+		out := IfaceV{nilG: iv.nilG}
+		for _, al := range iv.alts {
+			out.alts = append(out.alts, IfaceAlt{g: al.g, typ: al.typ, val: a.deepClone(al.val, al.typ, 0)})
+		}
+		return out, true
 	case "google.golang.org/protobuf/encoding/protojson.Marshal":
 		return TupleV{SliceV{arr: nilPtr(), len: BV(64, 0), cap: BV(64, 0)}, nilIface()}, true
 	case "time.AfterFunc":
@@ -112,6 +118,16 @@ func (a *Act) intrinsic(name string, fv FuncV, args []Value) (Value, bool) {
 	case "(*sync.Cond).Wait":
 		a.deadlockIf(True, "cond.Wait with nothing that can wake it (single-goroutine harness)")
 		return nil, true
+	case "time.NewTicker":
+		ch := a.alloc(ChanData{closed: False, ticker: true})
+		tk := in.zeroVal(fv.fn.Signature.Results().At(0).Type().(*types.Pointer).Elem()).(StructV)
+		nf := make([]Value, len(tk.f))
+		copy(nf, tk.f)
+		nf[0] = ptrTo(ch)
+		return ptrTo(a.alloc(StructV{f: nf})), true
+	case "(*time.Ticker).Stop":
+		return nil, true
+
 	case "strings.Join":
 		return StrV{id: in.fresh("join", BVS(32))}, true
 	}
@@ -306,6 +322,13 @@ func (a *Act) intrinsic(name string, fv FuncV, args []Value) (Value, bool) {
 			}
 		}
 		return nil, true
+	case "verifFairSelect":
+		in.fairSelect = args[0].(*Term).IsTrue()
+		return nil, true
+	case "verifNarrow":
+		// simplify a value under the facts known at this point: alternatives of pointer / interface
+		// unions and ite-terms whose condition is decided are resolved (no change of meaning)
+		return a.narrow(args[0], 0), true
 	case "verifKnown":
 		id := argStr(args[0])
 		c := And(a.g, args[1].(*Term))
@@ -457,4 +480,154 @@ func rw(w bool) string {
 		return "W"
 	}
 	return "R"
+}
+
+func (a *Act) narrowTerm(t *Term) *Term {
+	for t.op == "ite" {
+		c := t.args[0]
+		if !a.in.satK("narrow", a.g, c) {
+			t = t.args[2]
+		} else if !a.in.satK("narrow", a.g, Not(c)) {
+			t = t.args[1]
+		} else {
+			break
+		}
+	}
+	return t
+}
+
+func (a *Act) narrow(v Value, depth int) Value {
+	if depth > 3 {
+		return v
+	}
+	switch x := v.(type) {
+	case *Term:
+		return a.narrowTerm(x)
+	case StrV:
+		if !x.conc {
+			return StrV{id: a.narrowTerm(x.id)}
+		}
+		return x
+	case PtrV:
+		out := PtrV{nilG: x.nilG}
+		for _, al := range x.alts {
+			if a.in.satK("narrow", a.g, al.g) {
+				out.alts = append(out.alts, al)
+			}
+		}
+		if !out.nilG.IsFalse() && !a.in.satK("narrow", a.g, out.nilG) {
+			out.nilG = False
+		}
+		if len(out.alts) == 1 && out.nilG.IsFalse() {
+			out.alts[0].g = True
+		}
+		// also narrow what single-target pointers point at (closure cells, small structs)
+		if len(out.alts) == 1 && len(out.alts[0].path) == 0 && depth < 2 {
+			al := out.alts[0]
+			if vs, ok := a.st.heap[al.obj]; ok {
+				switch vs.v.(type) {
+				case PtrV, IfaceV, *Term, StrV:
+					a.st.heap[al.obj] = nv(a.narrow(vs.v, depth+1))
+				}
+			}
+		}
+		return out
+	case IfaceV:
+		out := IfaceV{nilG: x.nilG}
+		for _, al := range x.alts {
+			if a.in.satK("narrow", a.g, al.g) {
+				al.val = a.narrow(al.val, depth+1)
+				out.alts = append(out.alts, al)
+			}
+		}
+		if !out.nilG.IsFalse() && !a.in.satK("narrow", a.g, out.nilG) {
+			out.nilG = False
+		}
+		if len(out.alts) == 1 && out.nilG.IsFalse() {
+			out.alts[0].g = True
+		}
+		return out
+	case FuncV:
+		r := x
+		r.bind = nil
+		for _, b := range x.bind {
+			r.bind = append(r.bind, a.narrow(b, depth+1))
+		}
+		return r
+	case StructV:
+		r := StructV{f: make([]Value, len(x.f))}
+		for i := range x.f {
+			r.f[i] = a.narrow(x.f[i], depth+1)
+		}
+		return r
+	}
+	return v
+}
+
+// deepClone copies the object graph reachable from v (pointers, slices, maps, structs).
+func (a *Act) deepClone(v Value, t types.Type, depth int) Value {
+	if depth > 8 {
+		panic(unsupported("deepClone depth"))
+	}
+	switch u := t.Underlying().(type) {
+	case *types.Pointer:
+		p := v.(PtrV)
+		out := PtrV{nilG: p.nilG}
+		for _, al := range p.alts {
+			if len(al.path) != 0 {
+				panic(unsupported("deepClone of an interior pointer"))
+			}
+			old := a.st.heap[al.obj].v
+			id := a.alloc(a.deepClone(old, u.Elem(), depth+1))
+			out.alts = append(out.alts, PtrAlt{g: al.g, obj: id})
+		}
+		return out
+	case *types.Struct:
+		sv := v.(StructV)
+		r := StructV{f: make([]Value, len(sv.f))}
+		for i := range sv.f {
+			ft := u.Field(i).Type()
+			if !u.Field(i).Exported() {
+				r.f[i] = a.in.zeroVal(ft) // internal message state is not part of the value
+				continue
+			}
+			r.f[i] = a.deepClone(sv.f[i], ft, depth+1)
+		}
+		return r
+	case *types.Slice:
+		sl := v.(SliceV)
+		if len(sl.arr.alts) == 0 {
+			return sl
+		}
+		out := SliceV{arr: PtrV{nilG: sl.arr.nilG}, off: 0, len: sl.len, cap: sl.cap}
+		for _, al := range sl.arr.alts {
+			arr := navigate(a.st.heap[al.obj].v, al.path).(ArrayV)
+			n := len(arr.e) - sl.off
+			na := ArrayV{e: make([]Value, n)}
+			for i := 0; i < n; i++ {
+				na.e[i] = a.deepClone(arr.e[sl.off+i], u.Elem(), depth+1)
+			}
+			out.arr.alts = append(out.arr.alts, PtrAlt{g: al.g, obj: a.alloc(na)})
+		}
+		return out
+	case *types.Map:
+		m := v.(MapV)
+		if m.obj == 0 {
+			return m
+		}
+		md := a.st.heap[m.obj].v.(MapData)
+		nd := MapData{}
+		for _, e := range md.entries {
+			nd.entries = append(nd.entries, MapEntry{key: e.key, present: e.present, val: a.deepClone(e.val, u.Elem(), depth+1)})
+		}
+		return MapV{obj: a.alloc(nd)}
+	case *types.Interface:
+		iv := v.(IfaceV)
+		out := IfaceV{nilG: iv.nilG}
+		for _, al := range iv.alts {
+			out.alts = append(out.alts, IfaceAlt{g: al.g, typ: al.typ, val: a.deepClone(al.val, al.typ, depth+1)})
+		}
+		return out
+	}
+	return v
 }
